@@ -2,20 +2,38 @@
    Statements only; every proof is [exact lemma]. *)
 From Coq Require Import NArith List Bool.
 From Coq.Strings Require Import Byte.
-From LOF Require Import Base.Bytes Base.Res Model.Wire Model.Parse Proofs.ParseP.
+From LOF Require Import Base.Bytes Base.Res Model.Wire Model.Parse Proofs.ParseP Proofs.ParseNfP.
 Open Scope N_scope.
 
 (* THE FULL STATEMENT: for every byte string the entry point returns a message or an error:
    no panic, and the model's recursion fuel S |d| is never exhausted (= every loop of every
-   nested decoder makes progress). *)
+   nested decoder makes progress and every nesting shortens the data, so the work is bounded
+   by the input). *)
 Definition C07_full_statement : Prop :=
   forall d, parse_top d <> Panic /\ parse_top d <> Fuel.
 
-(* proved: no panic escapes, for every byte string (the entry point recovers; every slice
-   and index operation of the nested decoders is a panicking primitive in the model) *)
+Theorem C07_parser_is_total : C07_full_statement.
+Proof. exact (fun d => conj (parse_top_never_panics d) (parse_top_never_out_of_fuel d)). Qed.
+Print Assumptions C07_parser_is_total.
+
+(* the same, as a dichotomy *)
+Theorem C07_message_or_error : forall d, (exists t, parse_top d = Ok t) \/ parse_top d = Err.
+Proof. exact parse_top_message_or_error. Qed.
+Print Assumptions C07_message_or_error.
+
+(* no panic escapes, for every byte string (the entry point recovers; every slice and index
+   operation of the nested decoders is a panicking primitive in the model) *)
 Theorem C07_never_panics : forall d, parse_top d <> Panic.
 Proof. exact parse_top_never_panics. Qed.
 Print Assumptions C07_never_panics.
+
+(* every loop terminates within the fuel S |d| given at the entry point, for every byte
+   string: each iteration advances by at least one byte (an element that reports size 0
+   ends the loop) and reads beyond the end panic, so a loop runs at most |d| times;
+   conntrack actions and bundled messages nest on strictly shorter data *)
+Theorem C07_never_out_of_fuel : forall d, parse_top d <> Fuel.
+Proof. exact parse_top_never_out_of_fuel. Qed.
+Print Assumptions C07_never_out_of_fuel.
 
 Theorem C07_short_input_is_error : forall d, (length d < 2)%nat -> parse_top d = Err.
 Proof. exact parse_short. Qed.
